@@ -216,7 +216,7 @@ def plan(tier, seed):
     if tier == "quick":
         lay = [("numpy", 14)] * 12 + [("jax", 4)] * 2 + [("pytorch", 6)] * 2
     else:
-        lay = [("numpy", 400)] * 10 + [("jax", 60)] * 2 + [("pytorch", 150)] * 2 + [("tensorflow", 60)] * 2
+        lay = [("numpy", 800)] * 10 + [("jax", 120)] * 2 + [("pytorch", 300)] * 2 + [("tensorflow", 120)] * 2
     return [{"backend": b, "n": n, "seed": seed * 982451653 + i} for i, (b, n) in enumerate(lay)]
 
 
